@@ -65,6 +65,9 @@ def splitList (s : String) (sep : String := ",") : List String :=
 
 def Case.list (c : Case) (k : String) : List String := splitList (c.get k)
 
+/-- record names: a comma inside a name travels as %2C (the list separator is the comma) -/
+def Case.names (c : Case) (k : String) : List String := (c.list k).map fun s => s.replace "%2C" ","
+
 def Case.natList (c : Case) (k : String) : List Nat := (c.list k).map fun s => s.toNat?.getD 0
 
 structure Verdict where
